@@ -83,7 +83,7 @@ func (p c13) Run(c *core.Ctx) {
 	r := world.Start(sc, world.Options{})
 	c.Count("starts", 1)
 	c.Count("outcome_"+r.Outcome(), 1)
-	if r.Outcome() == "panic" || r.Outcome() == "diverged" {
+	if abnormal(r.Outcome()) {
 		c.Fail("", "abnormal start: "+r.OutcomeDetail(), failDetail(sc, r, nil))
 		return
 	}
